@@ -52,6 +52,13 @@ Theorem C05_adjacent_stars :
   forall p t : list N, wildcard_match (star :: star :: p) t = wildcard_match (star :: p) t.
 Proof. exact adjacent_stars. Qed.
 
+(* a concatenated pattern matches exactly the concatenations of what its parts match (stars anywhere in either part) *)
+Theorem C05_concat_pattern :
+  forall p q t : list N,
+    wildcard_match (p ++ q) t = true <->
+    exists t1 t2, t = t1 ++ t2 /\ wildcard_match p t1 = true /\ wildcard_match q t2 = true.
+Proof. exact concat_pattern. Qed.
+
 (* Non-vacuity: concrete non-trivial instances. *)
 Example C05_example_overlap : wildcard_match [42;97;97;98] [97;97;97;98] = true
                               /\ wildcard_match [97;42;98] [97;98;99] = false
@@ -66,6 +73,7 @@ Print Assumptions C05_prefix_pattern.
 Print Assumptions C05_suffix_pattern.
 Print Assumptions C05_infix_pattern.
 Print Assumptions C05_adjacent_stars.
+Print Assumptions C05_concat_pattern.
 Print Assumptions C05_wildcard_match_terminates.
 Print Assumptions C05_glob_reference.
 Print Assumptions C05_old_loop_refuted.
